@@ -238,6 +238,14 @@ def check_api(case, rec):
                                  t.metadata(axis=axis)))
         want = {"observation": ref.obs_md, "sample": ref.samp_md}
         want[axis] = model_add(ref.md(axis), ids, mapping)
+        left_out = [i for i in ids if i not in mapping]
+        if left_out and len(ids) % 2 == 0:
+            # a second call, for an ID the first one did not name (each ID
+            # has a record of its own, also the ones never mentioned)
+            second = {left_out[-1]: {"second-call": "only-here"}}
+            t.add_metadata(deepcopy(second), axis=axis)
+            want[axis] = model_add(want[axis], ids, second)
+            rec.cls("second-add-for-a-left-out-id")
         in_both = [i for i in ids if i in mapping]
         share = ref.md(axis) is not None and any(
             set(mapping[i]) & set(ref.md_of(axis, ids.index(i)) or {})
